@@ -98,15 +98,7 @@ def check(ctx):
         ctx.decide(len(calls) == 1 and C.callee_name(calls[0]) == dk and got == want, "C07-R2", C.line(fn), GEO, kern, "%s(%s)" % (dk, ", ".join(want)), "",
                    "%s obtains its bond vectors from %s(%s)" % (kern, C.callee_name(calls[0]) if calls else None, got))
         # which elements of the displacement / distance buffers a frame reads back is decided by value in R3 (frame 0 and frame 1)
-    fn = ctx.py.func(ANG, "_angle")
-    cols = {dotted(n.targets[0]): const(n.value.slice.elts[1]) for n in walk_no_nested(fn) if isinstance(n, ast.Assign) and isinstance(n.value, ast.Subscript) and isinstance(n.value.slice, ast.Tuple)}
-    ctx.decide(cols.get("ix01") == [1, 0] and cols.get("ix21") == [1, 2], "C07-R2", fn, ANG, "_angle", "reference vectors (1->0) and (1->2)", str(cols), "reference angle uses columns %s" % cols)
-    fn = ctx.py.func(DIH, "_dihedral")
-    cols = {dotted(n.targets[0]): const(n.value.slice.elts[1]) for n in walk_no_nested(fn) if isinstance(n, ast.Assign) and isinstance(n.value, ast.Subscript) and isinstance(n.value.slice, ast.Tuple)}
-    ctx.decide(cols.get("ix10") == [0, 1] and cols.get("ix21") == [1, 2] and cols.get("ix32") == [2, 3], "C07-R2", fn, DIH, "_dihedral", "reference vectors (0->1),(1->2),(2->3)", str(cols), "reference dihedral uses columns %s" % cols)
-    s = src(fn)
-    ok = all(x in s for x in ("b1 = distance.compute_displacements(traj, ix10", "b2 = distance.compute_displacements(traj, ix21", "b3 = distance.compute_displacements(traj, ix32"))
-    ctx.decide(ok, "C07-R2", fn, DIH, "_dihedral", "b1,b2,b3 from ix10, ix21, ix32 in that order", "", "the bond vectors are assigned to other index sets")
+    _references_by_evaluation(ctx)
 
     # ---- R3  (algebraic value numbering of the per-frame loop body; sa/symval.py)
     from ..symval import SymExec, State, Ptr, Unsupported as CUnsup
@@ -169,8 +161,6 @@ def check(ctx):
         # the unclamped path is the one on which both tests failed
         conds = [c for c, f in got if f and f[0] == "acos" and f[1][0].const_value() is None]
         ctx.decide(bool(conds) and not any(conds[0]), "C07-R3", C.line(fn), GEO, kern, "the unclamped value is used only when -1 <= cosine <= 1", "", "path conditions of the unclamped result are %s" % conds)
-    fn = ctx.py.func(ANG, "_angle")
-    ctx.decide("np.arccos(np.clip((u * v).sum(-1), -1.0, 1.0), out=out)" in src(fn), "C07-R3", fn, ANG, "_angle", "reference clips before arccos", "", "reference angle does not clip the cosine")
     for kern, jv in [(k_, j_) for k_ in ("dihedral", "dihedral_mic", "dihedral_mic_triclinic") for j_ in (0, 1)]:
         fn, ex, outs = frame_body(kern, jv)
         D = [Rat(Poly.var("D[%d]" % (k + 9 * jv))) for k in range(9)]
@@ -187,24 +177,6 @@ def check(ctx):
             ok = bool(f) and f[0] == "atan2" and f[1][0] == want_p1 and f[1][1] == want_p2
             why = "result is %s" % (repr(val[0])[:160] if val else None)
         ctx.decide(ok, "C07-R3", C.line(fn), GEO, kern, "dihedral = atan2(|b2| b1.(b2xb3), (b2xb3).(b1xb2))", "", "the per-frame result is not atan2(|b2| b1.(b2xb3), (b1xb2).(b2xb3)): %s" % why)
-    # numpy reference: same formula by value numbering of the Python source
-    from ..pysym import PySym, Vec as PVec, Unsupported as PUnsup
-    fn = ctx.py.func(DIH, "_dihedral")
-    bs = {"b%d" % (k + 1): PVec([Rat(Poly.var("b%d%s" % (k + 1, a))) for a in "xyz"]) for k in range(3)}
-    stmts = [st_ for st_ in fn.body if isinstance(st_, (ast.Assign, ast.AugAssign)) and dotted(st_.targets[0] if isinstance(st_, ast.Assign) else st_.target) in ("c1", "c2", "p1", "p2")]
-    ret = [st_ for st_ in fn.body if isinstance(st_, ast.Return)]
-    try:
-        ps = PySym(dict(bs)).run(stmts)
-        p1, p2 = ps.env.get("p1"), ps.env.get("p2")
-        B = [[bs["b%d" % (k + 1)][a] for a in range(3)] for k in range(3)]
-        c1, c2 = crs(B[1], B[2]), crs(B[0], B[1])
-        w1 = dot(B[0], c1) * ps.fn("sqrt", dot(B[1], B[1]))
-        w2 = dot(c1, c2)
-        ok = p1 is not None and p2 is not None and ps.equal(p1, w1) and ps.equal(p2, w2) and bool(ret) and re.sub(r"\s", "", src(ret[0].value)) in ("np.arctan2(p1,p2,out)", "np.arctan2(p1,p2,out=out)", "np.arctan2(p1,p2)")
-        ctx.decide(ok, "C07-R3", fn, DIH, "_dihedral", "reference: arctan2(|b2| b1.(b2xb3), (b2xb3).(b1xb2))", "", "reference dihedral evaluates p1 = %r, p2 = %r" % (p1, p2))
-    except PUnsup as e:
-        ctx.undecided("C07-R3", fn, DIH, "_dihedral", "reference dihedral formula", "not evaluable: %s" % e)
-
     # ---- R4
     mod = ctx.py.mod(DIH)
     for name, want in IUPAC.items():
@@ -306,3 +278,96 @@ def _backbone_indices_by_evaluation(ctx, mod):
         want = definition(IUPAC[tab])
         ctx.decide(got == want, "C07-R4", fn, DIH, fname, desc, "%d quadruples" % len(want),
                    "returned %s; the definition gives %s (atom indices; chains are residues 0-2 and 3-4)" % (got if got is not None else "something that is not an (n, 4) index array", want))
+
+
+def _references_by_evaluation(ctx):
+    """The numpy references _angle and _dihedral evaluated whole (sa/tensym.py) on 2 frames x 2 rows of atom indices: compute_displacements is summarised as
+    x[f, j] - x[f, i] for the pair (i, j) it is asked for (and must be handed the caller's `periodic`). Decided from what ends up in the caller's `out` array,
+    which is all the callers look at:
+       angle    out[f, r] = acos(clip(u.v / (|u||v|), -1, 1)),  u = x[a0] - x[a1],  v = x[a2] - x[a1]
+       dihedral out[f, r] = atan2(|b2| b1.(b2 x b3), (b2 x b3).(b1 x b2)),  b1 = x[a1]-x[a0], b2 = x[a2]-x[a1], b3 = x[a3]-x[a2]"""
+    from ..tensym import TenSym, Ten, Obj, Raised
+    from ..pysym import Unsupported as PUnsup
+    from ..poly import Poly, Rat
+    NF = 2
+
+    def X(f, a, k):
+        return Rat(Poly.var("x[%d,%d,%s]" % (f, a, "xyz"[k])))
+
+    def dot(u, v):
+        return u[0] * v[0] + u[1] * v[1] + u[2] * v[2]
+
+    def crs(u, v):
+        return [u[1] * v[2] - u[2] * v[1], u[2] * v[0] - u[0] * v[2], u[0] * v[1] - u[1] * v[0]]
+
+    for rel, name, rows, rule_desc in ((ANG, "_angle", [[4, 7, 2], [1, 0, 5]], "reference: out[f, r] = acos(clip(u.v/(|u||v|), -1, 1)) with u = x0 - x1, v = x2 - x1"),
+                                       (DIH, "_dihedral", [[4, 7, 2, 9], [1, 0, 5, 3]], "reference: out[f, r] = atan2(|b2| b1.(b2xb3), (b2xb3).(b1xb2))")):
+        fn = ctx.py.func(rel, name)
+        ctx.analysed_functions.add(rel + ":" + name)
+        pr = params(fn)
+        if len(pr) != 4:
+            ctx.undecided("C07-R3", fn, rel, name, rule_desc, "parameters are %s" % pr)
+            continue
+        for with_out in (True, False):
+            periodic_seen = []
+
+            def disp(ev, call, periodic_seen=periodic_seen):
+                pairs = ev.to_ten(ev.ex(call.args[1]) if len(call.args) > 1 else ev.kw(call, "atom_pairs"))
+                periodic_seen.append(ev.kw(call, "periodic", 2, True))
+                if pairs.ndim != 2 or pairs.shape[1] != 2:
+                    raise Raised("compute_displacements gets atom pairs of shape %s" % (pairs.shape,), "ValueError")
+                data = []
+                for f in range(NF):
+                    for r in range(pairs.shape[0]):
+                        i, j = ev.concrete(pairs.at((r, 0))), ev.concrete(pairs.at((r, 1)))
+                        data.extend(X(f, j, k) - X(f, i, k) for k in range(3))
+                return Ten((NF, pairs.shape[0], 3), data)
+            ts = TenSym({}, models={"distance.compute_displacements": disp, "compute_displacements": disp})
+            out = Ten.sym("undef_out", (NF, len(rows))) if with_out else None
+            idx = ts.to_ten(rows)
+            traj = Obj(tag="traj", _lenient=True)
+            wdesc = rule_desc + (" (into the caller's out)" if with_out else " (returned when out is None)")
+            try:
+                ret = ts.run_fn(fn, **{pr[0]: traj, pr[1]: idx, pr[2]: "PER", pr[3]: out})
+            except Raised as e:
+                ctx.violated("C07-R3", fn, rel, name, wdesc, "%s raises %s" % (name, e.exc or e))
+                continue
+            except PUnsup as e:
+                ctx.undecided("C07-R3", fn, rel, name, wdesc, "not evaluable: %s" % e)
+                continue
+            res = out if with_out else ret
+            why = []
+            if not isinstance(res, Ten) or res.shape != (NF, len(rows)):
+                why.append("the result has shape %s" % (getattr(res, "shape", None),))
+            else:
+                for f in range(NF):
+                    for r, at in enumerate(rows):
+                        v = res.at((f, r))
+                        vs = sorted(v.vars()) if v.poly() is not None else []
+                        dec = ts.opaque.get(vs[0]) if len(vs) == 1 and (v - Rat(Poly.var(vs[0]))).n.is_zero() else None
+                        if name == "_angle":
+                            u = [X(f, at[0], k) - X(f, at[1], k) for k in range(3)]
+                            w = [X(f, at[2], k) - X(f, at[1], k) for k in range(3)]
+                            cosv = dot(u, w) / (ts.fn("sqrt", dot(u, u)) * ts.fn("sqrt", dot(w, w)))
+                            ok = False
+                            if dec and dec[0] == "acos":
+                                a0 = dec[1][0]
+                                avs = sorted(a0.vars()) if a0.poly() is not None else []
+                                d2 = ts.opaque.get(avs[0]) if len(avs) == 1 and (a0 - Rat(Poly.var(avs[0]))).n.is_zero() else None
+                                if d2 and d2[0] == "clip" and d2[1][1].const_value() == -1 and d2[1][2].const_value() == 1 and ts.equal(d2[1][0], cosv):
+                                    ok = True
+                            if not ok:
+                                why.append("out[%d, %d] (atoms %s) is %s" % (f, r, at, repr(v)[:200]))
+                        else:
+                            b1 = [X(f, at[1], k) - X(f, at[0], k) for k in range(3)]
+                            b2 = [X(f, at[2], k) - X(f, at[1], k) for k in range(3)]
+                            b3 = [X(f, at[3], k) - X(f, at[2], k) for k in range(3)]
+                            c1, c2 = crs(b2, b3), crs(b1, b2)
+                            w1, w2 = dot(b1, c1) * ts.fn("sqrt", dot(b2, b2)), dot(c1, c2)
+                            ok = bool(dec) and dec[0] == "arctan2" and ts.equal(dec[1][0], w1) and ts.equal(dec[1][1], w2)
+                            if not ok:
+                                why.append("out[%d, %d] (atoms %s) is %s" % (f, r, at, repr(v)[:200]))
+            ctx.decide(not why, "C07-R3", fn, rel, name, wdesc, "2 frames x 2 rows", "; ".join(why[:2]))
+            ctx.decide(bool(periodic_seen) and all(p_ == "PER" for p_ in periodic_seen), "C07-R2", fn, rel, name,
+                       "the caller's `periodic` reaches every compute_displacements call" + ("" if with_out else " (out None)"), "%d calls" % len(periodic_seen),
+                       "compute_displacements is called with periodic=%s" % (periodic_seen,))
